@@ -7,7 +7,7 @@
 From Coq Require Import ZArith NArith Bool List Lia Permutation.
 From Mysync Require Import Gtid.Interval Gtid.GtidSet Pure.Quorum Pure.Desirable Base.Prog Base.ProgFacts Base.Post Base.Config
   Procs.NodeOps Procs.Lost Procs.DiskGuard Procs.ActiveNodes Procs.Switchover Procs.OfflineMode Procs.Repair Procs.Optimization Procs.Manager
-  Proofs.SwitchoverProofs Proofs.ManagerProofs Proofs.RepairProofs Proofs.QuorumProofs.
+  Proofs.SwitchoverProofs Proofs.ManagerProofs Proofs.RepairProofs.
 Import ListNotations.
 Open Scope Z_scope.
 
